@@ -4,7 +4,7 @@ Utility functions for `cdd.emit.docstring`
 
 import cdd.shared.ast_utils
 from cdd.shared.defaults_utils import extract_default
-from cdd.shared.pure_utils import simple_types, unquote
+from cdd.shared.pure_utils import none_types, simple_types, unquote
 
 
 def interpolate_defaults(
@@ -39,7 +39,11 @@ def interpolate_defaults(
         )
         _param["doc"] = doc
         if default is not None:
-            _param["default"] = unquote(default)
+            _param["default"] = (
+                cdd.shared.ast_utils.NoneStr  # same spelling whether or not the prose is kept
+                if isinstance(default, str) and default in none_types
+                else unquote(default)
+            )
     if require_default and _param.get("default") is None:
         # if (
         #     "typ" in _param
